@@ -90,7 +90,7 @@ def modify_lines(kind, val):
     if kind == "gas":
         return [f" -volume {g}"], r"^-volume\s", rf"^-volume\s+{g}$"
     if kind == "kinetics":
-        return [f" -bad_step_max {int(val)}"], r"^-bad_step_max\s", rf"^-bad_step_max\s+{int(val)}$"
+        return [f" -cvode_steps {int(val) + 1}"], r"^-cvode_steps\s", rf"^-cvode_steps\s+{int(val) + 1}$"
     if kind == "reaction":
         return [f" -count_steps {int(val)}"], r"^-count_steps\s", rf"^-count_steps\s+{int(val)}$"
     raise ValueError(kind)
